@@ -99,6 +99,11 @@ def bool_facts(du, v, truth, out, depth=0):
                 out.append(("le", oa, ob)); out.append(("le", ob, oa))
             elif op == "Ne" and not truth:
                 out.append(("le", oa, ob)); out.append(("le", ob, oa))
+            elif op in ("Eq", "Ne"):
+                # x != 0 for an unsigned x: 0 < x
+                for x, c in ((oa, ob), (ob, oa)):
+                    if c[0] == "const" and c[1] == 0 and not isinstance(c[1], bool) and len(c) > 3 and isinstance(c[3], str) and c[3].startswith("u"):
+                        rel = ("lt", c, x)
             if rel:
                 out.append(rel)
         return
@@ -116,9 +121,9 @@ def flip(op):
 def len_lower_bound(op, truth, k):
     """len <op> k is `truth`  =>  len >= ?"""
     if op == "Eq":
-        return k if truth else None
+        return k if truth else (1 if k == 0 else None)
     if op == "Ne":
-        return k if not truth else None
+        return k if not truth else (1 if k == 0 else None)
     if op == "Gt":
         return k + 1 if truth else None
     if op == "Ge":
